@@ -329,7 +329,10 @@ def retryLoop (w : World) (k : Nat) : List Entry → World
       | .fail (some h) err =>
         { w with onErrors := w.onErrors ++ [err], retryQ := w.retryQ ++ [h] ++ rest, closeAfterTask := true }
       | .stuck => w
-      | _ => retryLoop w k rest
+      | _ =>
+        -- a queued closure that failed has re-queued itself and set newRetryByError: the rest stays
+        -- behind it, un-attempted (retryclient.go: `if c.newRetryByError { … break }`)
+        if w.closeAfterTask then { w with retryQ := w.retryQ ++ rest } else retryLoop w k rest
 
 /-- one task, run with `cli` = connection `k` -/
 def runTask (w : World) (k : Nat) : Task → World
